@@ -432,8 +432,10 @@ class BitArray(Bits):
         if not isinstance(pos, abc.Iterable):
             pos = (pos,)
         v = 1 if value else 0
-        if isinstance(pos, range):
-            self._bitstore.__setitem__(slice(pos.start, pos.stop, pos.step), v)
+        if isinstance(pos, range) and len(pos) > 0 and min(pos[0], pos[-1]) >= 0 and max(pos[0], pos[-1]) < len(self):
+            # Fast path. A range is not a slice (range(-3, 2) and range(5, -1, -1) mean something else as slices), so only
+            # use it when every position is a valid non-negative index, and select exactly those positions.
+            self._bitstore.__setitem__(slice(min(pos[0], pos[-1]), max(pos[0], pos[-1]) + 1, abs(pos.step)), v)
             return
         for p in pos:
             self._bitstore[p] = v
